@@ -78,6 +78,8 @@ def make_target(spec):
         kw.update(spec.get("settings") or {})
         if spec.get("salt_size") is not None:
             kw["salt_size"] = spec["salt_size"]
+        if spec["hasher"] == "scrypt":
+            kw["rounds"] = 2  # (libxcrypt's $7$ starts at N = 2^2: the interoperability clause needs a cost it takes)
         Hc = H.using(**kw) if kw else H
         ctxkw = HS.ctx_grid(name)[0]
         raw = HS.is_raw_salt(name)
@@ -94,7 +96,7 @@ def make_target(spec):
                 import base64
 
                 s = salt if isinstance(salt, bytes) else salt.encode("ascii")
-                rawsalt = base64.b64decode(s + b"=" * (-len(s) % 4))
+                rawsalt = base64.b64decode(s.replace(b".", b"+") + b"=" * (-len(s) % 4))
                 return bits_of(rawsalt) + [("len", len(rawsalt))]
             if isinstance(salt, bytes) and raw:
                 return bits_of(salt) + [("len", len(salt))]
@@ -122,7 +124,18 @@ def make_target(spec):
             hint = len(chars)
             elen = size + 1
             space = None
-        return dict(f=f, hint=hint, expect_len=elen, space=space, legal=legal, two_draws=True)
+        def hash_of(ans):
+            r = env.ScriptedRng(ans)
+            with env.scripted_rng(r):
+                return Hc.hash("pw", **ctxkw)
+
+        def fixed_hash():
+            """a hash of the same settings under an explicitly given salt from the harness' own generator"""
+            st = [g for g in HS.settings_grid(name, True, 0) if "salt" in g and all(g.get(k) == v for k, v in kw.items() if k in ("ident",))]
+            st.sort(key=lambda g: -len(g["salt"]))
+            return H.using(**dict(kw, salt=st[0]["salt"])).hash("pw", **ctxkw) if st and "salt_size" not in kw else None
+
+        return dict(f=f, hint=hint, expect_len=elen, space=space, legal=legal, two_draws=True, hash_of=hash_of, fixed_hash=fixed_hash)
     if kind == "totp_new":
         from passlib import totp as T
 
@@ -372,6 +385,29 @@ def analyse(spec, quick=True, acc=None):
         viol("no_randomness", "generator consumed no request from the random source")
         return out
     acc.count("requests", len(log))
+    if t.get("hash_of") and not spec.get("settings", {}).get("truncate_error"):
+        # interoperability of the GENERATED salt: where the host's crypt() demonstrably implements the format (it reproduces
+        # a hash made under an explicit salt), it also reproduces every hash made under a generated one -- with every
+        # answer digit at 0, at its maximum, and at each value d in turn (every symbol the generator can emit shows up)
+        from mc.refs import formats as F
+
+        try:
+            fx = t["fixed_hash"]()
+        except Exception:  # noqa: BLE001
+            fx = None
+        if fx is not None and isinstance(fx, str) and fx.isascii() and F.os_crypt("pw", fx.replace("{CRYPT}", "")) == fx.replace("{CRYPT}", ""):
+            acc.count("crypt_interop_targets")
+            for d in range(256 if hint == 2 else hint):
+                ans = []
+                for _k, R in log:
+                    N, k = digits_for(R, hint if hint != 2 else 256)
+                    ans.append(sum((d % N) * N**i for i in range(k)) % R)
+                acc.ev()
+                h = t["hash_of"](ans)
+                inner = h.replace("{CRYPT}", "")
+                if F.os_crypt("pw", inner) != inner:
+                    viol("crypt_refuses_generated_salt", f"the host's crypt() implements the format (it reproduces {fx!r}) but refuses / does not reproduce {h!r}, made under a generated salt")
+                    break
     npos = len(base) - 1
     if t.get("expect_len") is not None and len(base) != t["expect_len"]:
         viol("size", f"output has {npos} symbols, declared {t['expect_len'] - 1}")
@@ -542,6 +578,8 @@ def analyse(spec, quick=True, acc=None):
         kw.update(spec.get("settings") or {})
         if spec.get("salt_size") is not None:
             kw["salt_size"] = spec["salt_size"]
+        if spec["hasher"] == "scrypt":
+            kw["rounds"] = 2  # (libxcrypt's $7$ starts at N = 2^2: the interoperability clause needs a cost it takes)
         Hc = H.using(**kw) if kw else H
         ctxkw = HS.ctx_grid(spec["hasher"])[0]
         n = len(sizes)
